@@ -36,8 +36,10 @@ CONSTANTS SL,        \* secondLevelPruningHeight (500000)
                      \* below (retainedRootHashes), nor an un-prefixed leaf that is the kept version's leaf,
                      \* and the re-commit cleanup also finds the entry of a one-leaf tree; FALSE: as found
 
-VARIABLES db, idx, old, roots, rk, maxH, secH, crashed
-mvars == <<db, idx, old, roots, rk, maxH, secH, crashed>>
+VARIABLES db, idx, old, roots, rk, maxH, secH, crashed,
+          wr,     \* bookkeeping for the classification of counterexamples: keys written by each commit of the chain
+          dead    \* ... and by each dropped commit whose height was not committed again
+mvars == <<db, idx, old, roots, rk, maxH, secH, crashed, wr, dead>>
 allvars == <<rvars, mvars, act>>
 mview == <<rvars, mvars>>
 
@@ -114,7 +116,9 @@ DelIdx(d, ix, rts, h) ==
               /\ \E rootk \in RootsAt(d, rts, h) :
                     \/ \E lk \in LeafKeysAt(d, h) : lk[2][2] = e.k /\ WalkHash(d, rootk, e.k) = e.lk
                     \* repaired: a one-leaf tree's leaf is the root (no height prefix, not found by the scan)
-                    \/ KeepRoots /\ rootk[2][1] = "L" /\ rootk[2][2] = e.k /\ e.lk = rootk}
+                    \/ KeepRoots /\ rootk[2][1] = "L" /\ rootk[2][2] = e.k /\ e.lk = rootk
+                    \* repaired: the entry of every leaf record stored with prefix h goes, under its own key
+                    \/ KeepRoots /\ e.lk \in LeafKeysAt(d, h)}
 DelCrash(d, rts, h) == \E rootk \in RootsAt(d, rts, h), lk \in LeafKeysAt(d, h) :
                           WalkHash(d, rootk, lk[2][2]) = <<"missing">>
 
@@ -131,7 +135,8 @@ KeepSet(rts, cur) ==
   ELSE LET lowest == cur - PruneH
            below == {r[1] : r \in {x \in rts : x[1] < lowest}}
            hb == IF below = {} THEN -1 ELSE MaxOf(below)
-       IN {<<0, r[2]>> : r \in {x \in rts : x[1] >= lowest \/ x[1] = hb}}
+       \* (one more interval below the newest record: it may stem from an abandoned branch)
+       IN {<<0, r[2]>> : r \in {x \in rts : x[1] >= lowest \/ (hb >= 0 /\ x[1] >= hb - PruneH)}}
 \* node records deleted with the tail T of one key's entries S; the repaired code keeps the root
 \* keys of KeepSet and a leaf key equal to the newest (kept) entry's leaf key
 TailNodes(S, T, keep) ==
@@ -174,7 +179,15 @@ NoCrash == ~crashed
 
 MInit == /\ Init
          /\ db = <<>> /\ idx = {} /\ old = {} /\ roots = {} /\ rk = <<>> /\ maxH = 0 /\ secH = 0
-         /\ crashed = FALSE
+         /\ crashed = FALSE /\ wr = <<>> /\ dead = <<>>
+
+\* commits above c are dropped; a commit at h cleans the index entries of height h
+DropTo(c, h) == [y \in ((DOMAIN dead \cup {z \in DOMAIN wr : z > c}) \ {h}) |-> IF y \in DOMAIN wr /\ y > c THEN wr[y] ELSE dead[y]]
+\* the known class: the index holds an entry of an abandoned branch (height never committed again)
+\* above a live version of the same key
+StaleShadow == \E x \in DOMAIN dead : \E k \in dead[x] : \E z \in DOMAIN wr : z < x /\ k \in wr[z]
+\* every violation within the bounds belongs to that class
+Explained == PruneSafe \/ StaleShadow
 
 MCommit(c, h, w) ==
   /\ CommitR(c, h, w)
@@ -193,17 +206,21 @@ MCommit(c, h, w) ==
          pr == IF Trigger(h) THEN PruneRun(d1, ix1, old, secH, rts1, h)
                ELSE [db |-> d1, idx |-> ix1, old |-> old, secH |-> secH]
      IN IF crash
-        THEN /\ crashed' = TRUE /\ UNCHANGED <<db, idx, old, roots, rk, maxH, secH>>
+        THEN /\ crashed' = TRUE /\ UNCHANGED <<db, idx, old, roots, rk, maxH, secH, wr, dead>>
         ELSE /\ crashed' = FALSE
              /\ db' = pr.db /\ idx' = pr.idx /\ old' = pr.old /\ secH' = pr.secH
              /\ roots' = roots \cup {<<h, Content(nt)>>}
              /\ rk' = [y \in {z \in DOMAIN rk : z <= c} \cup {h} |-> IF y = h THEN rootk ELSE rk[y]]
              /\ maxH' = Max2(maxH, h)
+             /\ dead' = DropTo(c, h)
+             /\ wr' = [y \in {z \in DOMAIN wr : z <= c} \cup {h} |-> IF y = h THEN {k \in Keys : w[k] # 0} ELSE wr[y]]
   /\ Emit(CommitLbl(c, h, w) @@ [mchk |-> MChk'])
 
 MNoChange(c, h) ==
   /\ NoChangeR(c, h)
   /\ rk' = [y \in {z \in DOMAIN rk : z <= c} |-> rk[y]]
+  /\ dead' = DropTo(c, 0)
+  /\ wr' = [y \in {z \in DOMAIN wr : z <= c} |-> wr[y]]
   /\ UNCHANGED <<db, idx, old, roots, maxH, secH, crashed>>
   /\ Emit(NoChangeLbl(c, h) @@ [mchk |-> MChk'])
 
@@ -211,7 +228,7 @@ MPrune(cur) ==
   /\ PruneR(cur)
   /\ LET pr == PruneRun(db, idx, old, secH, roots, cur) IN
        db' = pr.db /\ idx' = pr.idx /\ old' = pr.old /\ secH' = pr.secH
-  /\ UNCHANGED <<roots, rk, maxH, crashed>>
+  /\ UNCHANGED <<roots, rk, maxH, crashed, wr, dead>>
   /\ Emit(PruneLbl(cur) @@ [mchk |-> MChk'])
 
 MReopen ==
